@@ -88,6 +88,7 @@ def generate(streams, tier):
         if rw.random() < 0.55:
             ops.append({"op": "pc", "variant": rw.choice(["orig", "stable", "parallel"]), "ci": rw.choice(["match", "callable"]),
                         "return_type": rw.choice(["skeleton", "pdag", "cpdag", "dag"]), "n_jobs": rw.choice([1, 2, -1]), "jobseed": rw.randrange(2**31),
+                        "build": rw.choice(["at_once", "stepwise"]),
                         "col_order": shuffled(rw, range(n))})
         else:
             # PDAG extension: a CPDAG of a random DAG, possibly with extra orientations / de-orientations
@@ -145,7 +146,19 @@ def _pc(case, ctx, op, n, edges, labels, lab2idx):
             ctx.probe("match_skipped_variable_not_in_any_statement")
             return  # the independence list does not even name every variable: the input does not determine the node set
         ind = Independencies()
-        ind.add_assertions(*[IndependenceAssertion(labels[a], labels[b], [labels[v] for v in z]) for a, b, z in stmts])
+        asserts = [IndependenceAssertion(labels[a], labels[b], [labels[v] for v in z]) for a, b, z in stmts]
+        if op.get("build", "at_once") == "at_once" or len(asserts) < 2:
+            ind.add_assertions(*asserts)
+        else:
+            # the list is built up in steps with membership questions in between (the object has a history before PC sees it)
+            rb = random.Random(op["jobseed"] ^ 0x5A5A)
+            rb.shuffle(asserts)
+            cut = rb.randint(1, len(asserts) - 1)
+            ind.add_assertions(*asserts[:cut])
+            for a_ in rb.sample(asserts, min(3, len(asserts))):
+                (a_ in ind) if rb.random() < 0.5 else ind.contains(a_)
+            ind.add_assertions(*asserts[cut:])
+            ctx.fault("object_history")
         est = PC(independencies=ind)
         ci = "independence_match"
     else:
